@@ -584,6 +584,9 @@ def pk_cfgs(tier):
     C["r11-varying-consumer"] = dict(recipe=(1, 1), n_pallets=3, comb_only=True, out_delay="sym-each", mid_cap=1, sym=("pd",))
     C["r12-blocked-out"] = dict(recipe=(1, 2), n_pallets=3, comb_only=True, out_delay="sym", mid_cap=1, sym=("ip", "pd"))
     C["r12-comb-only"] = dict(recipe=(1, 2), n_pallets=2, comb_only=True, out_delay="sym")
+    # two-stage packing: loaded pallets of the first combiner are the pallets of a second one
+    C["two-stage-r11-r12"] = dict(recipe=(1, 1), recipe2=(1, 2), n_pallets=2, sym=("ii",))
+    C["two-stage-r11-r11-slow-consumer"] = dict(recipe=(1, 1), recipe2=(1, 1), n_pallets=3, sym=("ip",), comb_only=True, out_delay="sym", mid_cap=1)
     # Splitter / Combiner next to conveyors and fleets (index policies; FIRST_AVAILABLE explicitly rejects non-Buffer edges there)
     C["r12-idx-cconv-out"] = dict(recipe=(1, 2), n_pallets=2, split_sel=0, out_kind="cconv", out_cap=3, sym=("ii", "sd"))
     C["r12-rr2-cconv-out"] = dict(recipe=(1, 2), n_pallets=2, split_out=2, split_sel="ROUND_ROBIN", out_kind="cconv", out_cap=3, sym=("ii", "sd"))
@@ -630,13 +633,13 @@ PROPS["C16"] = {
 
 # the pallet scenarios also serve C03 / C08 / C09 / C10 / C17 / C18
 _c10_jobs = PROPS["C10"]["jobs"]
-PROPS["C10"]["jobs"] = lambda tier: _c10_jobs(tier) + pk_jobs("C10", tier, names=["r11", "r12", "r13-cap1", "r111", "r11-rr2"])
+PROPS["C10"]["jobs"] = lambda tier: _c10_jobs(tier) + pk_jobs("C10", tier, names=["r11", "r12", "r13-cap1", "r111", "r11-rr2", "two-stage-r11-r12"])
 _c09_jobs = PROPS["C09"]["jobs"]
 PROPS["C09"]["jobs"] = lambda tier: _c09_jobs(tier) + pk_jobs("C09", tier, names=["r12-nonblocking", "r13-nonblocking-split", "r11", "r12-nb-idx-cconv-out", "r12-nb-fa-cconv-out", "r11-nb-idx-cconv-mid"]) + srcfan_jobs("C09", tier)
 _c18_jobs = PROPS["C18"]["jobs"]
 PROPS["C18"]["jobs"] = lambda tier: _c18_jobs(tier) + pk_jobs("C18", tier, names=["r11", "r12", "r12-comb-only"], extra_kw={"until": "sym"})
 _c03_jobs = PROPS["C03"]["jobs"]
-PROPS["C03"]["jobs"] = lambda tier: _c03_jobs(tier) + pk_jobs("C03", tier, names=["r11", "r12", "r11-rr2", "r12-nonblocking", "r12-comb-only", "r11-lifo-mid", "r12-idx-cconv-out", "r12-nb-idx-cconv-out", "r11-nb-idx-cconv-mid", "r11-idx-fleet-mid"])
+PROPS["C03"]["jobs"] = lambda tier: _c03_jobs(tier) + pk_jobs("C03", tier, names=["r11", "r12", "r11-rr2", "r12-nonblocking", "r12-comb-only", "r11-lifo-mid", "r12-idx-cconv-out", "r12-nb-idx-cconv-out", "r11-nb-idx-cconv-mid", "r11-idx-fleet-mid", "two-stage-r11-r12", "two-stage-r11-r11-slow-consumer"])
 _c08_jobs = PROPS["C08"]["jobs"]
 PROPS["C08"]["jobs"] = lambda tier: _c08_jobs(tier) + pk_jobs("C08", tier, names=["r11", "r12", "r111", "r11-rr2", "r11-split-in-idx", "r12-blocked-out", "r11-varying-consumer", "no-combiner-rr"])
 PROPS["C08"]["required_witnesses"] = PROPS["C08"]["required_witnesses"] + ["C08:combiner-residence-checked"]
